@@ -1,7 +1,117 @@
-/- line-protocol handler for model "dav" (stub until its model is built) -/
+/- line-protocol handler for model "dav" (C18)
+
+   seq <req> <req> …          one whole request sequence per line, run from the empty collection
+     req  = M,src,dst,ow,depth,pre,body,range
+       M     PUT DELETE MKCOL COPY MOVE GET
+       src   hex of the (clean) request path, e.g. "/a/b/"
+       dst   "-" (no Destination header) or hex of the raw header value
+       ow    - T F X        depth  - 0 1 i
+       pre   4 chars: If-Match (- m x)  If-None-Match:* (- s)  If-Unmodified-Since (- p f)  fragment (- #)
+       body  hex            range  "-" | "bad" | offset
+     output: one token per request  "status;tree"  (GET: "status;hexbody"),
+       tree = entries below the root sorted by path, "hexpath=hexcontent" or "hexpath/" joined by ","
+       followed by one token "out:<canary state>" for the entries outside the root
+   dest <hexraw>              Destination parsing only:  "ok <hexpath>" | "err <status>"
+   put <old> <new> <events…>  PUT syscall protocol (Model/DavPut.lean), see there
+-/
+import LtVerif.Model.Dav
+import LtVerif.Model.DavPut
 namespace Driver
+open LtVerif LtVerif.B LtVerif.Dav
+
+def davRoot : Dav.Path := [ofString "R"]
+def davScheme : Bytes := ofString "http"
+def davAuthority : Bytes := ofString "dav.test"
+def davInit : Tree := [([], .dir), (davRoot, .dir), ([ofString "canary"], .file (ofString "C"))]
+
+def bytesLt : Bytes → Bytes → Bool
+  | [], [] => false
+  | [], _ :: _ => true
+  | _ :: _, [] => false
+  | a :: as, b :: bs => if a < b then true else if b < a then false else bytesLt as bs
+
+def fnv1a (bs : Bytes) : UInt64 :=
+  bs.foldl (fun h b => (h ^^^ b.toUInt64) * 0x100000001b3) 0xcbf29ce484222325
+
+/-- short contents in hex, long ones as "#length.fnv1a64" -/
+def showContent (c : Bytes) : String :=
+  if c.length > 32 then "#" ++ toString c.length ++ "." ++ toString (fnv1a c).toNat else toHex c
+
+def renderPath (p : Dav.Path) : Bytes := p.flatMap fun s => slash :: s
+
+def dedupKeys : Tree → List Dav.Path → List Dav.Path
+  | [], _ => []
+  | (q, _) :: r, seen => if seen.contains q then dedupKeys r seen else q :: dedupKeys r (q :: seen)
+
+def dumpTree (t : Tree) (inside : Bool) : String :=
+  let keys := (dedupKeys t []).filter fun k =>
+    if inside then under davRoot k && k != davRoot else !under davRoot k && k != []
+  let items := keys.map fun k =>
+    let rel := renderPath (if inside then k.drop davRoot.length else k)
+    match get t k with
+    | some .dir => (rel ++ [slash], none)
+    | some (.file c) => (rel, some c)
+    | none => (rel, none)
+  let sorted := items.mergeSort fun a b => !bytesLt b.1 a.1
+  let strs := sorted.map fun (p, c) =>
+    match c with
+    | none => toHex p
+    | some c => toHex p ++ "=" ++ showContent c
+  if strs.isEmpty then "-" else ",".intercalate strs
+
+def parseReq (s : String) : Option Req :=
+  match s.splitOn "," with
+  | [m, src, dst, ow, depth, pre, body, range] => do
+    let m ← (match m with
+      | "PUT" => some Method.put | "DELETE" => some .delete | "MKCOL" => some .mkcol
+      | "COPY" => some .copy | "MOVE" => some .move | "GET" => some .get | _ => none)
+    let srcb ← ofHex src
+    let rp := toRPath srcb
+    let dstv ← (if dst = "-" then some none else (ofHex dst).map some)
+    let ow ← (match ow with
+      | "-" => some Ow.absent | "T" => some .t | "F" => some .f | "X" => some .bad | _ => none)
+    let depth ← (match depth with
+      | "-" => some Depth.absent | "0" => some .zero | "1" => some .one | "i" => some .inf | _ => none)
+    let pc := pre.toList
+    let im ← (match pc[0]? with
+      | some '-' => some none | some 'm' => some (some true) | some 'x' => some (some false) | _ => none)
+    let inm ← (match pc[1]? with | some '-' => some false | some 's' => some true | _ => none)
+    let ius ← (match pc[2]? with
+      | some '-' => some none | some 'p' => some (some true) | some 'f' => some (some false) | _ => none)
+    let frag ← (match pc[3]? with | some '-' => some false | some '#' => some true | _ => none)
+    let body ← ofHex body
+    let range ← (match range with
+      | "-" => some none | "bad" => some (some none) | n => n.toNat?.map fun k => some (some k))
+    pure { m := m, src := ⟨davRoot ++ rp.segs, rp.slash⟩, dst := mkDest davRoot davScheme davAuthority dstv,
+           ow := ow, depth := depth, pre := ⟨im, inm, ius⟩, body := body, range := range, frag := frag }
+  | _ => none
+
+def runSeq (t : Tree) : List String → List String → Option (List String)
+  | [], acc => some ((("out:" ++ dumpTree t false) :: acc).reverse)
+  | s :: rest, acc =>
+    match parseReq s with
+    | none => none
+    | some r =>
+      if r.m == .get then
+        let g := doGet t r
+        runSeq t rest ((toString g.1 ++ ";" ++ showContent g.2) :: acc)
+      else
+        let (st, t') := step t r
+        runSeq t' rest ((toString st ++ ";" ++ dumpTree t' true) :: acc)
 
 def davLine : List String → String
+  | "seq" :: reqs =>
+    match runSeq davInit reqs [] with
+    | some out => " ".intercalate out
+    | none => "bad-op"
+  | ["dest", h] =>
+    match ofHex h with
+    | none => "bad-op"
+    | some raw =>
+      match parseDest davScheme davAuthority raw with
+      | .ok p => "ok " ++ toHex p
+      | .error s => "err " ++ toString s
+  | "put" :: args => DavPut.putLine args
   | _ => "bad-op"
 
 end Driver
